@@ -20,7 +20,7 @@ theorem find?_findIdx {α} (p : α → Bool) (js : List α) (j : α) (h : js.fin
     by_cases hx : p x = true
     · simp [hx] at h ⊢; exact h
     · simp only [Bool.not_eq_true] at hx
-      simp only [hx, Bool.false_eq_true, if_false] at h
+      simp only [hx] at h
       simp only [hx, cond_false]
       have := ih h
       exact ⟨by rw [List.length_cons]; exact Nat.succ_lt_succ this.1, by rw [List.getElem?_cons_succ]; exact this.2⟩
@@ -122,6 +122,6 @@ theorem occlMcPixel_eq (m : DMap) (r c : Nat) (hc : c < m.cols)
       rw [this]; simp
     | none =>
       obtain ⟨ha', hb'⟩ := hRn hr
-      simp [ha', hb', b2n]
+      simp [ha', b2n]
 
 end Pandora.Interp
